@@ -142,6 +142,28 @@ class Tokens:
 EPOCH = pydt.datetime(1, 1, 1)
 
 
+def key_token(k):
+    """injective token of a dict key's equality class (Python: 1 == True == 1.0 are the same key; str, bytes, None and
+    tuples never equal one another)"""
+    if k is None:
+        return "n"
+    if isinstance(k, (bool, int)):
+        return "i%d" % int(k)
+    if isinstance(k, float):
+        if k != k:
+            raise Unobservable("NaN as a dict key")
+        if k in (float("inf"), float("-inf")) or k != int(k):
+            return "f%d" % float_bits(k)
+        return "i%d" % int(k)
+    if isinstance(k, str):
+        return "s" + k.encode("utf-8", "surrogatepass").hex()
+    if isinstance(k, bytes):
+        return "b" + k.hex()
+    if isinstance(k, tuple):
+        return "t(" + ",".join(key_token(x) for x in k) + ")"
+    raise Unobservable("dict key of type %s" % type(k).__name__)
+
+
 def lit_value(v, tk, descs):
     """Gallina literal of a packed value (a field value after FieldType._pack())"""
     from flow.record import GroupedRecord, Record
@@ -180,9 +202,7 @@ def lit_value(v, tk, descs):
     if isinstance(v, list):
         return "(PList %s)" % clist([lit_value(x, tk, descs) for x in v])
     if isinstance(v, dict):
-        if not all(isinstance(k, str) for k in v):
-            raise Unobservable("dict with a non-text key")
-        return "(PDict %s)" % clist(["(%s, %s)" % (hx(k.encode("utf-8", "surrogatepass")), lit_value(x, tk, descs)) for k, x in v.items()])
+        return "(PDict %s)" % clist(["(%s, %s)" % (cstr(key_token(k)), lit_value(x, tk, descs)) for k, x in v.items()])
     raise Unobservable("value of type %s" % type(v).__name__)
 
 
@@ -338,6 +358,24 @@ def block_items(seed, n, legacy):
     r1, r2 = g.record(inner_d, 2), g.record(inner_d, 2)
     items.append(outer_d.recordType(r=r1, rs=[r2, g.record(g.descriptor(depth=2), 2)], a=g.value(outer_d.get_field_tuples()[2][0], 2),
                                     _generated=T0, _source=None, _classification=None))
+    dl_d = RecordDescriptor("gen/dl", [("dictlist", "d"), ("string", "s")])
+
+    def rkey():
+        return rnd.choice([rnd.randrange(-3, 4), rnd.choice("abc"), None, rnd.choice([b"a", b"k"]), rnd.choice([True, False]),
+                           (rnd.randrange(3), rnd.choice("ab")), rnd.choice([0.5, 2.0])])
+
+    def rdict(depth=0):
+        d = {}
+        for _ in range(rnd.randrange(4)):
+            d[rkey()] = rnd.choice([1, "v", None, 2.5, b"b", [1, 2]]) if depth >= 2 or rnd.random() < 0.6 else \
+                rnd.choice([rdict(depth + 1), [rdict(depth + 1), 3]])
+        return d
+    dl = dl_d.recordType(d=[rdict() for _ in range(rnd.randrange(1, 4))], s=rnd.choice(["x", None]), _generated=T0, _source=None, _classification=None)
+    items.append(dl)
+    items.append(outer_d.recordType(r=dl_d.recordType(d=[rdict()], s="n", _generated=T0, _source=None, _classification=None),
+                                    rs=[dl_d.recordType(d=[rdict(), rdict()], s=None, _generated=T0, _source=None, _classification=None)],
+                                    a=None, _generated=T0, _source=None, _classification=None))
+    items.append(GroupedRecord("grp/dl", [g.record(inner_d, 2), dl_d.recordType(d=[rdict()], s="m", _generated=T0, _source=None, _classification=None)]))
     items.append(GroupedRecord("grp/y", [g.record(g.descriptor(depth=1), 1), items[-1], g.record(inner_d, 2)]))
     return items
 
@@ -416,6 +454,16 @@ def special_pairs():
     out.append(("list-tuple", S(l=[[1, 2]], d=[], _generated=T0), S(l=[(1, 2)], d=[], _generated=T0)))
     out.append(("dict-key-order", S(l=[], d=[{"a": 1, "b": [2, {"x": 1, "y": 2}]}], _generated=T0),
                 S(l=[], d=[{"b": [2, {"y": 2, "x": 1}], "a": 1}], _generated=T0)))
+    mixed = [({1: "one", "two": 2}, {"two": 2, 1: "one"}), ({None: 0, "a": 1}, {"a": 1, None: 0}),
+             ({b"k": 1, "k": 2}, {"k": 2, b"k": 1}), ({True: "t", "x": {2: [1, {None: 1, 3: 2}], "y": 0}}, {"x": {"y": 0, 2: [1, {3: 2, None: 1}]}, 1: "t"}),
+             ({(1, "a"): 1, "z": 2, 0.5: 3}, {0.5: 3, "z": 2, (1, "a"): 1}), ({1: "a"}, {1.0: "a"}), ({1: "a", "b": 2}, {"1": "a", "b": 2})]
+    NM = RecordDescriptor("sp/nm", [("record", "r"), ("record[]", "rs")])
+    for i, (d1, d2) in enumerate(mixed):
+        r1, r2 = S(l=[], d=[{"plain": 1}, d1], _generated=T0), S(l=[], d=[{"plain": 1}, d2], _generated=T0)
+        out.append(("dict-mixed-keys-%d" % i, r1, r2))
+        out.append(("dict-mixed-keys-nested-%d" % i, NM(r=r1, rs=[r2], _generated=T0), NM(r=r2, rs=[r1], _generated=T0)))
+        out.append(("dict-mixed-keys-grouped-%d" % i, GroupedRecord("g", [F(f=1.0, fl=[], _generated=T0), r1]),
+                    GroupedRecord("g", [F(f=1.0, fl=[], _generated=T0), r2])))
     out.append(("dict-differs", S(l=[], d=[{"a": 1, "b": 2}], _generated=T0), S(l=[], d=[{"a": 1, "c": 2}], _generated=T0)))
     out.append(("dict-value-differs", S(l=[], d=[{"a": 1, "b": 2}], _generated=T0), S(l=[], d=[{"a": 1, "b": 3}], _generated=T0)))
     out.append(("dict-subset", S(l=[], d=[{"a": 1}], _generated=T0), S(l=[], d=[{"a": 1, "b": 3}], _generated=T0)))
@@ -653,6 +701,9 @@ def value_pool():
         ("a", 0), ("a", 1), (("ls", ["-l"]), 0), (("ls", ["-l", "x"]), 0), (("ls", ("-l",)), 0), (None, 0), (b"\x00" * 16, None, None),
         {}, {"a": 1}, {"a": 1.0}, {"a": 1, "b": 2}, {"b": 2, "a": 1}, {"a": 1, "b": 3}, {"a": 1, "c": 2}, {"a": [1, {"x": 1, "y": nan}]},
         {"a": [1, {"y": nan, "x": 1}]}, [{"a": 1, "b": 2}], [{"b": 2, "a": 1}], 16909060, b"\x00" * 15 + b"\x01",
+        {1: "one", "two": 2}, {"two": 2, 1: "one"}, {None: 0, "a": 1}, {"a": 1, None: 0}, {b"k": 1, "k": 2}, {"k": 2, b"k": 1},
+        {True: "one", "two": 2}, {1.0: "one", "two": 2}, {"1": "one", "two": 2}, {(1, "a"): 1, "z": {2: 0, None: [1]}},
+        {"z": {None: [1], 2: 0}, (1, "a"): 1}, {0.5: 1, 0: 2}, {False: 2, 0.5: 1},
     ]
     return pool
 
@@ -792,7 +843,7 @@ def run(ctx):
         "variations (declared, reserved, inside a nested record, inside a group member), with the same values under "
         "another descriptor (name / field name / field type / extra field), with another item, with a non-record, group "
         "vs member / renamed / shortened / reordered / re-grouped; plus hand-picked edge pairs (NaN, signed zeros, "
-        "int/float/bool, dict key order, time zones and fold, path/command/digest/ip forms, two descriptors sharing (name, hash) -- plain, nested, grouped, both directions).  "
+        "int/float/bool, dict key order, dicts with keys of different types (plain, nested, grouped), time zones and fold, path/command/digest/ip forms, two descriptors sharing (name, hash) -- plain, nested, grouped, both directions).  "
         "Configurations: {}, {_generated}, one declared field, several declared+reserved, an unknown name; installed by "
         "set_ignored_fields_for_comparison, the context manager (normal exit, exit by exception, nested, body that sets "
         "again) and the environment variable in a fresh interpreter.  distinct = distinct (pair kind, shapes of x and y, "
@@ -809,7 +860,8 @@ def run(ctx):
         "the model's input is the packed value of every slot (FieldType._pack() output, nested records kept as objects) "
         "as observed by the harness; text and bytes only through an injective encoding; datetime equality follows "
         "CPython's datetime_richcompare incl. PEP 495 (concrete model dt_eq, validated by the value battery)",
-        "dict keys inside dictlist values are text (other keys: pair skipped in the Coq comparison, still judged in Python)",
+        "dict keys (None, bool/int/float, str, bytes, tuples of those) are carried as an injective token of their equality "
+        "class; other key types: pair skipped in the Coq comparison, still judged in Python",
     ]
     if not ok:
         return
